@@ -1,1 +1,3 @@
 import PkVerif.Base.Bytes
+import PkVerif.Base.Order
+import PkVerif.Base.Eff
